@@ -158,7 +158,7 @@ func init() {
 			Technique: "bounded-exhaustive enumeration (static thresholds) + stateless model checking of the writer / threshold-listener interleavings (controlled scheduler, preemption-bounded DFS)",
 			Rule:      "static: (threshold, storage, shape, user meta, expiry, discard) tuples, 6 sizes each; dynamic: (percentile, size sequence) cases x schedules up to the bound; distinct = distinct (final threshold) outcomes per case"}
 		if q {
-			p.Stages = []Stage{en("c06static", 16, 60, nil), sched("c06dyn", 2, 16, 60, prm("cases", 16))}
+			p.Stages = []Stage{en("c06static", 16, 60, nil), sched("c06dyn", 1, 16, 40, prm("cases", 16)), sched("c06dyn", 2, 16, 45, prm("cases", 16))}
 		} else {
 			p.Stages = []Stage{en("c06static", 16, 300, nil), sched("c06dyn", 3, 16, 900, prm("cases", 16))}
 		}
